@@ -63,7 +63,9 @@ PROPS['C02'] = {
     'passes': [{'variant': 'opt', 'binary': 'cfg', 'runs': [24000, 800000], 'deadline_s': [150, 2400]}],
     'rule': ("one evaluation = one seeded scene (2 destinations, 3-5 sources/masks with transforms, filters, repeats, clips, alpha maps) and 4-10 drawing "
              "requests (composite32 over all 53 operators weighted to those with fast paths, fill_boxes/rectangles, fill, blt, trapezoids, triangles, glyph runs; flavours aimed at the "
-             "scaled nearest/bilinear fast paths, solid colours through a mask, and the pixbuf idiom of two images of different formats over the same pixels; boolean setters get 0, 1, 2 and -1), "
+             "scaled nearest/bilinear fast paths, solid colours through a mask, the pixbuf idiom of two images of different formats over the same pixels, and - a quarter of the runs - a walk of the library's own fast-path tables: one entry of "
+             "one delegate's table, operands and 3-7 requests built to fit its operator, formats and flag words, pixel content in short runs of transparent / opaque / mixed pixels; "
+             "boolean setters get 0, 1, 2 and -1), "
              "executed under ALL 32 delegation chains (every subset of {fast,mmx,sse2,ssse3} x wholeops), each on a fresh thread from identical buffers at a "
              "seed-chosen alignment; every destination is compared with the general-only chain on its defined bits.  Non-trivial = every chain drew at least once; "
              "distinct = distinct event hashes (all per-op destination digests of all chains)"),
@@ -90,7 +92,8 @@ PROPS['C04'] = {
     'rule': ("one evaluation = one seeded scene biased to the geometry the property lists (1-pixel and >32767-pixel images, request rectangles partly or wholly outside, "
              "offsets near +-2^15, extreme scale / translation / near-singular projective transforms, convolution kernels, trapezoids with endpoints at +-32767.99, glyphs half "
              "outside, fill boxes beyond the destination; exact-fit and scaled exact-fit requests that consume a tightly packed source to its last pixel; projective transforms whose true "
-             "mapping stays inside the source while their affine part does not; once in 400 runs an image of 4 GiB and a little whose pixels pixman allocates, with the oracle that the block "
+             "mapping stays inside the source while their affine part does not; rotations by 90/180/270 degrees with the translation at either end of the interval that keeps every "
+             "sample inside; the fast-path table walk of C02 with operands exactly as large as the request needs; once in 400 runs an image of 4 GiB and a little whose pixels pixman allocates, with the oracle that the block "
              "it allocated holds the image it describes) executed under the general-only chain plus 5 seed-chosen chains, by a gcc and by a clang build; every image buffer is exact-size against a PROT_NONE "
              "page with poisoned, checked canaries on the other side; accessor images check every callback against the storage of the participating images; ASan watches pixman's "
              "own heap and stack.  Pixel values are not compared.  Non-trivial = every chain run drew at least once; distinct = distinct event hashes"),
